@@ -298,9 +298,9 @@ check(
 )
 
 
-def raw_row(v, kind="tuple"):
-    row = (("C", v),) if kind == "dict" else (v,)
-    return [(("rows", kind, [row]), 1, ("desc", [("C", 2, None, None, None, None, True)]), None)]
+def raw_row(v, kind="tuple", name="C"):
+    row = ((name, v),) if kind == "dict" else (v,)
+    return [(("rows", kind, [row]), 1, ("desc", [(name, 2, None, None, None, None, True)]), None)]
 
 
 ok = side(raw=raw_row("a;b"))
@@ -313,7 +313,19 @@ check(
     ["note"],
 )
 check("desc probe", c16.compare(ok, side(raw=raw_row("x")), 1, True, ("desc", 0), "C"), [])
-check("desc probe wrong", clauses(c16.compare(ok, side(raw=raw_row("x")), 1, True, ("desc", 0), "c")), ["C16.literal"])
+check(
+    "desc probe wrong",
+    clauses(c16.compare(side(raw=raw_row("x", name="c")), side(raw=raw_row("x")), 1, True, ("desc", 0), "c")),
+    ["C16.literal"],
+)
+check("desc probe wrong both ways", clauses(c16.compare(ok, side(raw=raw_row("x")), 1, True, ("desc", 0), "c")), ["note"])
+check("net_effect i", c16.net_effect("i"), True)
+check("net_effect q", c16.net_effect("qnvfrk"), False)
+check("net_effect begin open", c16.net_effect("b"), True)
+check("net_effect begin insert rollback", c16.net_effect("bir"), False)
+check("net_effect begin insert commit", c16.net_effect("bik"), True)
+check("net_effect begin rollback", c16.net_effect("bk"), False)
+check("net_effect use is not transactional", c16.net_effect("bur"), True)
 
 # ---- 9. classifier -----------------------------------------------------------------------------------------------------
 one_ok = side()
